@@ -40,6 +40,7 @@ class World:
         self.latest = {}  # M_truth: target name -> id of the latest job accepted from a gwf invocation
         self.latest_gen = {}  # local pool only: generation of the pool that issued that id
         self.accepted_gen = {}  # local pool only: (name, id) -> generation
+        self.orphan_ids = set()  # ids of accepted jobs that no gwf invocation can know (killed before the id was recorded)
         self.k3_lost = set()  # names whose accepted job id gwf could not have seen (kill inside submission)
         self.m_hash = {}  # M_hash
         self.hashing = bool(knobs.get("hashing"))
@@ -315,6 +316,24 @@ class World:
                 same_run = any(a[0] == d for a in self.accepted_now)
                 if pj is not None and (same_run or self.job_phase(pj) in ("pending", "running")):
                     producers.append(pj)
+                if self.cluster is not None:
+                    # every other job of that dependency that is still pending or running was producing this
+                    # target's input as well - unless gwf cannot know it (its id was lost with a killed
+                    # invocation) or the scheduler shows it in a state the statement does not pin down
+                    for oj in self.cluster.jobs.values():
+                        if oj.name == d and not oj.foreign and oj.id != pj and oj.phase != "done" \
+                                and oj.id not in self.orphan_ids and not oj.was_unpinned and oj.id not in producers:
+                            producers.append(oj.id)
+                            self.probe("older_live_producer_jobs")
+            if self.cluster is not None:
+                # the statement's first sentence, at the instant of acceptance and whatever else happens to this
+                # invocation: the scheduler was told to wait for every one of those jobs
+                told = {str(x) for x in j.deps}
+                missing = [pj for pj in producers if str(pj) not in told]
+                if missing:
+                    self.flag("C07", "live_producer_not_awaited",
+                              f"job {j.id} ({j.name}) was submitted with prerequisites {sorted(told)} but the jobs {missing} "
+                              f"of its direct dependencies are pending or running (or were submitted in this run)")
         self.job_model[j.id] = dict(outputs=outs, name=j.name, producers=producers,
                                     spec=t.spec() if t is not None else "", wd=t.wd if t is not None else "")
         self.latest[j.name] = j.id
